@@ -727,6 +727,20 @@ pub fn run_prop(prop: &Prop, opts: &RunOpts) -> RunResult {
     let mut total = Agg::default();
     let mut violations: Vec<(Found, PathBuf)> = vec![];
 
+    // watchdog (covers the replay tier as well)
+    let threads = opts.threads.max(1);
+    let slots: Vec<Arc<Mutex<Slot>>> = (0..threads)
+        .map(|_| Arc::new(Mutex::new(Slot { started: None, bytes: vec![], sub: "" })))
+        .collect();
+    let done = Arc::new(AtomicBool::new(false));
+    // watchdog
+    let wd = {
+        let slots = slots.clone();
+        let done = done.clone();
+        let pid = prop.id;
+        std::thread::spawn(move || watchdog(pid, slots, done))
+    };
+
     // 1. regression tier: committed replays
     let rdir = verif_root().join("replays").join(prop.id);
     let mut replayed = 0u64;
@@ -745,7 +759,14 @@ pub fn run_prop(prop: &Prop, opts: &RunOpts) -> RunResult {
                 eprintln!("replay {} names unknown subcheck {sub}", f.display());
                 continue;
             };
+            {
+                let mut g = slots[0].lock().unwrap();
+                g.started = Some(Instant::now());
+                g.bytes = bytes.clone();
+                g.sub = sc.name;
+            }
             let (ctx, r) = run_case(prop.id, sc, &bytes, &known, false, opts.thorough);
+            slots[0].lock().unwrap().started = None;
             replayed += 1;
             for t in &ctx.tolerated {
                 *total.excluded_known.entry(t.clone()).or_default() += 1;
@@ -759,19 +780,6 @@ pub fn run_prop(prop: &Prop, opts: &RunOpts) -> RunResult {
     total.extra_notes.insert("replayed_regressions".into(), replayed.into());
 
     // 2. PBT tier
-    let threads = opts.threads.max(1);
-    let slots: Vec<Arc<Mutex<Slot>>> = (0..threads)
-        .map(|_| Arc::new(Mutex::new(Slot { started: None, bytes: vec![], sub: "" })))
-        .collect();
-    let done = Arc::new(AtomicBool::new(false));
-    // watchdog
-    let wd = {
-        let slots = slots.clone();
-        let done = done.clone();
-        let pid = prop.id;
-        std::thread::spawn(move || watchdog(pid, slots, done))
-    };
-
     if violations.is_empty() {
         for sc in &prop.subchecks {
             if let Some(o) = &opts.only {
